@@ -490,6 +490,7 @@ class Ncp:
         if st == "OK":
             self.formed = False
             self.net_state = NO_NETWORK
+            self.children = {}  # the child table belongs to the network that is being left (link keys and frame counters stay until overwritten)
             self.stack_status("NETWORK_DOWN", self.cb_delay("leave"))
         return (St(st),)
 
